@@ -213,6 +213,31 @@ add("C19",
     "trusts vlib/refcal.py, vlib/forms.py; results that cannot be printed in "
     "the input's own notation are out of scope")
 
+add("C15",
+    "Hypothesis RuleBasedStateMachine over mode switches and calendar "
+    "computations; differential oracle = single-mode worker processes, plus "
+    "the reference calendar definition",
+    "Histories of up to 40 steps switch the mode through the API, "
+    "DateTimeOperator, the environment variable (and its absence) and the CLI "
+    "option over all 7 spellings and interleave ~20 kinds of calendar "
+    "computations whose arguments come from a small pool so that the same "
+    "call recurs under different modes; every result must equal the answer of "
+    "a worker process that only ever used the current mode; length queries "
+    "must equal the mode's definition; the reported mode must be the selected "
+    "one. Exploration only.",
+    "the single-mode worker (vlib/workers/mode_worker.py) is the reference "
+    "for 'a fresh process that only ever used the current mode'")
+add("C16",
+    "Hypothesis RuleBasedStateMachine over pools of values; invariant oracle = "
+    "recursive snapshot (slots, str, hash) of every value ever seen",
+    "Histories of up to 40-50 steps construct TimePoint (full, 24:00, decimal,"
+    " truncated), Duration, TimeZone and TimeRecurrence values and apply ~37 "
+    "families of public operations to operands drawn from the pools (results "
+    "and linked sub-objects re-enter the pools); after every step every value "
+    "ever seen is re-snapshotted and must be unchanged. Exploration only.",
+    "any exception from an operation is 'no result'; long-running operations "
+    "are cut by a watchdog and not judged")
+
 NOT_YET = {}
 
 
